@@ -514,7 +514,13 @@ pub fn check_live(c: &crate::props::c08::Case) -> Verdict {
     }
     let text = t.maps_text().unwrap_or_default();
     let gate = crate::props::c01::true_auxv(t.pid)[2];
-    let dumper = minidump_writer::ptrace_dumper::PtraceDumper::new_report_soft_errors(t.pid, std::time::Duration::from_millis(2000), Default::default(), error_graph::strategy::DontCare);
+    // caller-supplied auxiliary-vector values: any subset of the four true values (absent = 0 = "look it up");
+    // the vDSO address the kernel reports must be honoured whichever subset the caller supplied
+    let mask = fp_json(c) % 16;
+    let a = crate::props::c01::true_auxv(t.pid);
+    let pickv = |i: usize| if mask & (1 << i) != 0 { a[i] } else { 0 };
+    let direct = minidump_writer::minidump_writer::DirectAuxvDumpInfo { program_header_count: pickv(0), program_header_address: pickv(1), linux_gate_address: pickv(2), entry_address: pickv(3) };
+    let dumper = minidump_writer::ptrace_dumper::PtraceDumper::new_report_soft_errors(t.pid, std::time::Duration::from_millis(2000), minidump_writer::verif_api::AuxvDumpInfo::from(direct), error_graph::strategy::DontCare);
     let dumper = match dumper {
         Ok(d) => d,
         Err(e) => return Verdict::viol("C13:live:dumper-init-failed", format!("{e:?}")),
@@ -595,7 +601,7 @@ pub fn run(ctx: &mut LaneCtx) {
         SubSpec {
             name: "live-maps",
             cases: (480, 10_000),
-            rule: "live targets with 1..6 files mapped in 1..4 parts of differing permissions with optional PROT_NONE gaps, some unlinked; the mapping list the dumper derives (PtraceDumper init) is judged against the kernel's /proc/pid/maps text with the same invariants (order, exact cover, hull, merge justification, gate name); non-trivial = at least one merge; distinct = hash of case",
+            rule: "live targets with 1..6 files mapped in 1..4 parts of differing permissions with optional PROT_NONE gaps, some unlinked; the mapping list the dumper derives (PtraceDumper init, given any subset of the four true auxiliary-vector values as caller-supplied information) is judged against the kernel's /proc/pid/maps text with the same invariants (order, exact cover, hull, merge justification, gate name); non-trivial = at least one merge; distinct = hash of case",
             strategy: crate::props::c08::case_strategy().boxed(),
             max_shrink_iters: 100,
             log_current: true,
